@@ -172,10 +172,11 @@ func (r *Recorder) FrameEnter(f *vm.VerifFrame) {
 		r.top().logged = true
 		ev := map[string]interface{}{"event": "Enter", "run": r.Run, "depth": f.Depth, "static": f.StaticArg,
 			"ro": r.top().static, "iro": f.ReadOnly, "gas": GasDigits(f.Gas), "codeLen": len(f.Code), "nframes": len(r.frames),
-			"value0": f.Value == nil || f.Value.Sign() == 0, "pop": -1, "pg1": []int{}}
+			"value0": f.Value == nil || f.Value.Sign() == 0, "pop": -1, "pg1": []int{}, "pg0": []int{}, "pcost": []int{}}
 		if len(r.frames) >= 2 {
 			if pp := r.frames[len(r.frames)-2].p; pp != nil && pp.charged {
 				ev["pop"], ev["pg1"] = pp.op, GasDigits(pp.g1)
+				ev["pg0"], ev["pcost"] = GasDigits(pp.g0), GasDigits(pp.cost)
 			}
 		}
 		if r.Opt.EnterExtra != nil {
